@@ -161,6 +161,9 @@ func checkC09(w *World, r *Report) {
 	r.Rule("R09.9", "identifiers of every length >= 3 that start with xml (any case) are rejected (RFC 6020 section 12: an identifier MUST NOT start with xml)", 1)
 	r.guard("R09.9", func() { c09XmlPrefix(w, r) })
 
+	r.Rule("R09.10", "no parse error is forgotten: in package parse every error result that is bound to a variable is examined before it is overwritten or goes out of scope (e.g. the two boundaries of a range/length part are checked separately)", 1)
+	r.guard("R09.10", func() { errRule(w, r, "R09.10", []string{"parse"}, nil) })
+
 	r.Rule("R09.8", "the shared RFC table parse.cardinalities is read-only: no map update can reach it or one of its rows (every node gets a private copy)", 1)
 	r.guard("R09.8", func() { c09TableReadOnly(w, r) })
 }
